@@ -67,8 +67,7 @@ InsertOneC(c, x, v) ==
   ELSE IF Has(x, v) THEN x
   ELSE IF Len(x.elems) < SN[c] THEN [x EXCEPT !.elems = Append(@, v)]
   ELSE [InsertSorted(Grow(x), v) EXCEPT !.large = TRUE]
-RECURSIVE InsertAllC(_, _, _)
-InsertAllC(c, x, vs) == IF vs = <<>> THEN x ELSE InsertAllC(c, InsertOneC(c, x, Head(vs)), Tail(vs))
+InsertAllC(c, x, vs) == FoldLeft(LAMBDA acc, v : InsertOneC(c, acc, v), x, vs)
 \* plain std::set meaning (used for the theorem on hints)
 InsertOne(x, v) == InsertSorted(x, v)
 RemoveIf(c, x, P(_)) == Norm(c, [x EXCEPT !.elems = SelectSeq(@, LAMBDA e : ~P(e))])
